@@ -37,6 +37,7 @@ z ( 3 2 1 );
 r $fromInc;
 """
 INC = "fromInc 7;\nzz 'from include';\n"
+LISTSRC = "cases ( { name first; } { name second; } );\nsettings { a 1; }\nscalar 5;\n"
 
 
 ODD_NAMES = ["~case", "~", "my dict", "$HOME", "${USER}.dict", "%TEMP%", "é.dict", "a.b.c", "*.dict", "src.dict.bak"]
@@ -47,6 +48,7 @@ def build(td: Path):
     (td / "sub").mkdir(parents=True)
     (td / "src.dict").write_text(SRC)
     (td / "sub" / "inc").write_text(INC)
+    (td / "caseDict").write_text(LISTSRC)
     for nm in ODD_NAMES:                      # the same source under names a shell or path library might want to expand
         (td / nm).write_text(SRC)
     (td / "src2.json").write_text('{"load case": {"wind speed": {"v": 12.5}, "x": 1}, "plain": {"y": 2}, "n": {"m": {"z": 3}}}')
@@ -264,6 +266,9 @@ def run(ctx: Ctx) -> None:
     for argv, sub in ((["nope.dict"], True), (["nope.dict", "-o", "json"], False), (["src.dict", "--mode", "x"], True), (["src.dict", "-o", "yaml"], False),
                       (["src.dict", "--log-level", "LOUD"], False), ([], False), (["src.dict", "--unknown"], False)):
         cases.append({"kind": "bad", "argv": argv, "subprocess": sub})
+    # scopes that do not name a dict (a list item, the list itself, a scalar, an index out of range): the command fails and writes nothing
+    for sc in ("[cases, 0]", "['cases', 0]", " [ cases , 1 ] ", "[cases]", "cases", "[cases, 5]", "[scalar]", "[settings, a]", "[cases, name]"):
+        cases.append({"kind": "bad", "argv": ["caseDict", "--scope", sc], "subprocess": sc == "[cases, 0]"})
     for w in ("n", "1", "a"):
         cases.append({"kind": "scope_equiv", "word": w})
     process(ctx, cases)
